@@ -280,6 +280,53 @@ pub fn c13_multipoint_n3_k2() { multipoint::<3, 2>() }
 #[cfg_attr(kani, kani::proof)] #[cfg_attr(kani, kani::unwind(7))]
 pub fn c13_multipoint_n4_k3() { multipoint::<4, 3>() }
 
+/// parents of UNEQUAL length (the kernel's second branch): the two child lengths are the two parent lengths, every common
+/// position holds the two parental genes across the two children, and the surplus tail of the longer parent is preserved.
+/// Cut points are enumerated as concrete cases selected by a symbolic index (symbolic `truncate`/`split_off` bounds are a
+/// CBMC cost trap); contents are symbolic.
+fn multipoint_unequal_case<const N1: usize, const N2: usize>(cuts: &[usize]) {
+    let (p1, p2): ([u8; N1], [u8; N2]) = (sym_arr(), sym_arr());
+    let [c1, c2] = multi_point_crossover(&p1, &p2, cuts);
+    let m = if N1 < N2 { N1 } else { N2 };
+    assert!((c1.len() == N1 && c2.len() == N2) || (c1.len() == N2 && c2.len() == N1), "the children do not have the parents' lengths");
+    for i in 0..m {
+        assert!((c1[i] == p1[i] && c2[i] == p2[i]) || (c1[i] == p2[i] && c2[i] == p1[i]),
+                "a position does not hold the two parental genes across the two children (unequal lengths)");
+    }
+    let (long_child, long_parent): (&Vec<u8>, &[u8]) = if c1.len() > c2.len() { (&c1, if N1 > N2 { &p1 } else { &p2 }) } else { (&c2, if N1 > N2 { &p1 } else { &p2 }) };
+    for i in m..long_parent.len() { assert!(long_child[i] == long_parent[i], "the surplus tail of the longer parent is not preserved"); }
+}
+/// @verif anchor=multi_point_crossover bound="parent lengths 3 and 4; all 9 ordered tuples of 1..2 distinct cut points; all contents"
+#[cfg_attr(kani, kani::proof)] #[cfg_attr(kani, kani::unwind(8))]
+pub fn c13_multipoint_unequal_3_4() {
+    let k: usize = sym();
+    assume(k < 9);
+    if k == 0 { multipoint_unequal_case::<3, 4>(&[0]); }
+    if k == 1 { multipoint_unequal_case::<3, 4>(&[1]); }
+    if k == 2 { multipoint_unequal_case::<3, 4>(&[2]); }
+    if k == 3 { multipoint_unequal_case::<3, 4>(&[0, 1]); }
+    if k == 4 { multipoint_unequal_case::<3, 4>(&[0, 2]); }
+    if k == 5 { multipoint_unequal_case::<3, 4>(&[1, 0]); }
+    if k == 6 { multipoint_unequal_case::<3, 4>(&[1, 2]); }
+    if k == 7 { multipoint_unequal_case::<3, 4>(&[2, 0]); }
+    if k == 8 { multipoint_unequal_case::<3, 4>(&[2, 1]); }
+}
+/// @verif anchor=multi_point_crossover tier=thorough bound="parent lengths 4 and 3; all 9 ordered tuples of 1..2 distinct cut points; all contents"
+#[cfg_attr(kani, kani::proof)] #[cfg_attr(kani, kani::unwind(8))]
+pub fn c13_multipoint_unequal_4_3() {
+    let k: usize = sym();
+    assume(k < 9);
+    if k == 0 { multipoint_unequal_case::<4, 3>(&[0]); }
+    if k == 1 { multipoint_unequal_case::<4, 3>(&[1]); }
+    if k == 2 { multipoint_unequal_case::<4, 3>(&[2]); }
+    if k == 3 { multipoint_unequal_case::<4, 3>(&[0, 1]); }
+    if k == 4 { multipoint_unequal_case::<4, 3>(&[0, 2]); }
+    if k == 5 { multipoint_unequal_case::<4, 3>(&[1, 0]); }
+    if k == 6 { multipoint_unequal_case::<4, 3>(&[1, 2]); }
+    if k == 7 { multipoint_unequal_case::<4, 3>(&[2, 0]); }
+    if k == 8 { multipoint_unequal_case::<4, 3>(&[2, 1]); }
+}
+
 /// arithmetic crossover at the endpoints of the combination (one coordinate): alpha = 1 returns the parents, alpha = 0 swaps
 /// them — both genes of the position are conserved across the two children
 /// @verif anchor=arithmetic_crossover bound="length 1 (per coordinate); all finite p, q; alpha in {0, 1}"
